@@ -47,6 +47,14 @@ let result_s (r : calc_result) =
 
 let checks_of f = (f = "1")
 
+let kclass_s = function KLit -> "lit_out_of_range" | KPowNeg -> "pow_neg_exponent"
+  | KPowTrunc -> "pow_exponent_truncated" | KPowOvf -> "pow_overflow"
+let uniq l = List.sort_uniq compare l
+let with_classes c s r =
+  match line_classes c s with
+  | [] -> r
+  | ks -> r ^ " #k=" ^ String.concat "," (uniq (List.map kclass_s ks))
+
 let () =
   iter_lines (fun l ->
     match split_tab l with
@@ -60,9 +68,11 @@ let () =
          | POk ps -> print_endline ("ok " ^ pairs_s ps)
          | PFail -> print_endline "err"
          | PFuel -> print_endline "fuel")
-    | ["calc"; c; f] -> print_endline (result_s (run_calculator (checks_of c) (str_of_field f)))
+    | ["calc"; c; f] ->
+        let s = str_of_field f in
+        print_endline (with_classes (checks_of c) s (result_s (run_calculator (checks_of c) s)))
     | ["try"; c; f] ->
         (match try_run_calculator (checks_of c) (str_of_field f) with
          | None -> print_endline "none"
-         | Some r -> print_endline (result_s r))
+         | Some r -> print_endline (with_classes (checks_of c) (str_of_field f) (result_s r)))
     | _ -> print_endline "?bad-case") Sys.argv.(1)
